@@ -339,7 +339,7 @@ def gen(ctx):
         if rng.random() < 0.2 and fmt != "kitti" and ntraj > 1:
             o["merge"] = True
         if rng.random() < 0.25 and fmt != "kitti":
-            o["t_offset"] = float(rng.choice([0.002, -0.003]))
+            o["t_offset"] = float(rng.choice([0.002, -0.003, 0.006, -0.008]))   # the last two: applied twice they leave t_max_diff
         if with_ref:
             r = rng.random()
             if r < 0.25:
